@@ -512,11 +512,19 @@ class _LazyModule(_evmod.Namespace):
 
     def get(self, attr):
         v = super().get(attr)
-        if isinstance(v, FuncRef) and isinstance(v.node, (ast.FunctionDef, ast.ClassDef)) and v.mod == self._name:
-            if v.mod not in self._foreign:
-                self._foreign[v.mod] = self._foreign.make(v.mod)
-            return self._foreign[v.mod].get(attr, v)
+        if (isinstance(v, FuncRef) and isinstance(v.node, (ast.FunctionDef, ast.ClassDef)) and v.mod == self._name) or _holds_funcref(v):
+            if self._name not in self._foreign:
+                self._foreign[self._name] = self._foreign.make(self._name)
+            return self._foreign[self._name].get(attr, v)
         return v
+
+
+def _holds_funcref(v, depth=0):
+    if isinstance(v, (tuple, list)):
+        return depth < 3 and any(isinstance(x, FuncRef) or _holds_funcref(x, depth + 1) for x in v)
+    if isinstance(v, dict):
+        return depth < 3 and any(isinstance(x, FuncRef) or _holds_funcref(x, depth + 1) for x in v.values())
+    return False
 
 
 def callable_env(forest, mod, interp, extra_env=None):
